@@ -420,7 +420,7 @@ def mapped_deep_interrupt(ctx, i):
 
 
 def run(ctx):
-    n = 400 if ctx.tier == "quick" else 16000
+    n = 800 if ctx.tier == "quick" else 16000
     core.WARM_P = 0.0
     if ctx.replay:
         ctx.inconc("C14 replays are re-generated from the seed; re-run the tier with the recorded seed")
